@@ -1,23 +1,39 @@
 #!/bin/bash
-# usage: mutant_eval.sh <dir with patch.diff [demo.cpp]> <check ids...>
-# Confirms the demonstration (fails with the change, passes without), applies the change to /repo,
-# runs the named checks, and ALWAYS restores /repo afterwards.
+# usage: mutant_eval.sh [--in-repo] <dir with patch.diff [demo.cpp]> <check ids...>
+# Confirms the demonstration (fails with the change, passes without) and runs the named checks
+# against the changed header.
+#   default:    the change is applied to a scratch copy of /repo's source tree and the checks are
+#               pointed at it with VERIF_REPO (safe while other runs use /repo);
+#   --in-repo:  git -C /repo apply, run, and ALWAYS git -C /repo checkout -- . afterwards.
 set -u
 # evidence/ and replays/ of runs against a changed tree must not replace the committed ones
 export VERIF_OUT=${VERIF_OUT:-/tmp/mutant-eval-out}
+INREPO=0
+if [ "$1" = "--in-repo" ]; then INREPO=1; shift; fi
 DIR=$1; shift
 cd /verif
-if [ -n "$(git -C /repo status --porcelain --untracked-files=no)" ]; then echo "/repo is dirty, refusing"; exit 2; fi
 if [ -f "$DIR/demo.cpp" ]; then
-  g++ -std=c++20 -O1 -g -fsanitize=address,undefined -w -I/repo/source/include "$DIR/demo.cpp" -o /tmp/demo_orig 2>/dev/null
-  ASAN_OPTIONS=detect_leaks=0 /tmp/demo_orig > /tmp/demo_orig.out 2>&1; echo "demo on unchanged /repo: exit=$? ($(tail -1 /tmp/demo_orig.out | cut -c1-80))"
+  g++ -std=c++20 -O1 -g -fsanitize=address,undefined -w -I/repo/source/include "$DIR/demo.cpp" -o /tmp/demo_orig.$$ 2>/dev/null
+  ASAN_OPTIONS=detect_leaks=0 /tmp/demo_orig.$$ > /tmp/demo_orig.$$.out 2>&1; echo "demo on unchanged /repo: exit=$? ($(tail -1 /tmp/demo_orig.$$.out | cut -c1-80))"
 fi
-if ! git -C /repo apply --check "$DIR/patch.diff" 2>/dev/null; then echo "patch does not apply to current /repo"; exit 2; fi
-git -C /repo apply "$DIR/patch.diff"
-trap 'git -C /repo checkout -- . ; echo "[/repo restored]"' EXIT
+if [ $INREPO = 1 ]; then
+  if [ -n "$(git -C /repo status --porcelain --untracked-files=no)" ]; then echo "/repo is dirty, refusing"; exit 2; fi
+  if ! git -C /repo apply --check "$DIR/patch.diff" 2>/dev/null; then echo "patch does not apply to current /repo"; exit 2; fi
+  git -C /repo apply "$DIR/patch.diff"
+  trap 'git -C /repo checkout -- . ; echo "[/repo restored]"' EXIT
+  TREE=/repo
+else
+  TREE=/tmp/mutant-tree.$$
+  rm -rf $TREE; mkdir -p $TREE
+  git -C /repo archive HEAD source | tar -x -C $TREE
+  if ! (cd $TREE && git apply --check "$DIR/patch.diff" 2>/dev/null); then echo "patch does not apply to current /repo HEAD"; rm -rf $TREE; exit 2; fi
+  (cd $TREE && git apply "$DIR/patch.diff")
+  trap 'rm -rf $TREE /tmp/demo_orig.$$* /tmp/demo_mut.$$*' EXIT
+  export VERIF_REPO=$TREE
+fi
 if [ -f "$DIR/demo.cpp" ]; then
-  g++ -std=c++20 -O1 -g -fsanitize=address,undefined -w -I/repo/source/include "$DIR/demo.cpp" -o /tmp/demo_mut 2>/dev/null
-  ASAN_OPTIONS=detect_leaks=0 /tmp/demo_mut > /tmp/demo_mut.out 2>&1; echo "demo with the change:    exit=$? ($(tail -1 /tmp/demo_mut.out | cut -c1-80))"
+  g++ -std=c++20 -O1 -g -fsanitize=address,undefined -w -I$TREE/source/include "$DIR/demo.cpp" -o /tmp/demo_mut.$$ 2>/dev/null
+  ASAN_OPTIONS=detect_leaks=0 /tmp/demo_mut.$$ > /tmp/demo_mut.$$.out 2>&1; echo "demo with the change:    exit=$? ($(tail -1 /tmp/demo_mut.$$.out | cut -c1-80))"
 fi
 for c in "$@"; do
   ./check $c > /tmp/mut_check_$c.out 2>&1; rc=$?
